@@ -57,6 +57,16 @@ Theorem C10_hash_is_fnv1a : forall name,
 Proof. exact hash_is_fnv1a. Qed.
 Print Assumptions C10_hash_is_fnv1a.
 
+(* ---- the constants of the source are the numbers of the v1 format (the
+   layout checker below uses the numbers, not the constants) *)
+Theorem C10_constants :
+  c_recordUnit = 32 /\ c_pageSize = 16384 /\ c_minFileLen = 16384 /\ c_numHash = 512 /\
+  c_maxNameLen = 4096 /\ c_maxMetaLen = 512 /\ c_limitOff = 0 /\ c_hashOff = 4 /\
+  c_hdrPrefix = [35; 32; 116; 101; 108; 101; 109; 101; 116; 114; 121; 47; 99; 111; 117; 110; 116; 101; 114;
+                 32; 102; 105; 108; 101; 32; 118; 49; 10].
+Proof. exact v1_constants. Qed.
+Print Assumptions C10_constants.
+
 (* ---- header: length-prefixed, 32-aligned, and a file that starts with it
    reads back (length, metadata) *)
 Theorem C10_header_shape : forall meta h, mapped_header meta = Some h ->
